@@ -152,6 +152,8 @@ def run(ctx, rep, tier):
     delegate(ctx, rep, tier, "C01", ("C01.d",), "C16.g", "no-match transitions of every match kind are built fall-through: the restart edges of a wait are these transitions retargeted, and rely on it")
     structs.check_copy_complete(ctx, rep, "C16.e")
     structs.check_cull_policy(ctx, rep, "C16.f")
+    delegate(ctx, rep, tier, "C17", ("C17.d",), "C16.j", "end-of-input during a wait merely reports the parse as incomplete: end() does not take the wait's restart edge (an error path that "
+             "lists End) for a matched `end` pattern - it would re-dispatch from the wait's start for ever")
 
 
 def _wait_scope_and_optional_entry(ctx, rep, tier):
